@@ -109,7 +109,20 @@ def rule_skipguard(ctx):
     # contribution (a term of the inversion count) and the counter (+1)
     sc = [m for m in aug if any(x is inv for x in tm.walk(m.val))]
     nf = [m for m in aug if tm.is_const(m.val, 1) and m not in sc]
+    # a second place that counts a query (or adds to the score) without having looked at that query's inversion count
+    # is a fast path around the normaliser test: a query without any reference triple would be counted
+    extra_nf = []
+    if len(sc) == 1 and len(nf) > 1:
+        main_conds = {(c[1].id, c[2]) for c in sc[0].pc if c[0] == "if"}
+        same = [m for m in nf if {(c[1].id, c[2]) for c in m.pc if c[0] == "if"} == main_conds]
+        if len(same) == 1:
+            extra_nf = [m for m in nf if m is not same[0]]
+            nf = same
     need(len(sc) == 1 and len(nf) == 1, R, "_gauc: score / num_frames accumulation not found")
+    for k, m in enumerate(extra_nf):
+        conds = [symeval._strip_not(c[1], c[2]) for c in m.pc if c[0] == "if"]
+        has_norm = any(c is norm and p for c, p in conds)
+        yield ob(R, f, "hierarchy._gauc:extra-count@%d" % (k + 1), has_norm, "a second counting site is under the normaliser test as well" if has_norm else "a query is also counted under %s, without the test that it has a reference triple at all (`if normalizer`): windows without any comparable pair then count as perfect" % "; ".join(tm.show(c, 2) for c, _ in conds), node=m.node)
 
     def under_norm(m):
         # conditions inside the query loop only
